@@ -281,4 +281,68 @@ def adaptFull (nodes : List Node) (ebs : List EBlock) : Option (List Route × Li
       some (consolidate (setGroups (drawGroups (nodes.filter Node.isHandle).length c2).1 nodes rs),
             (C16.insertionSort blockLess blocks).flatten)
 
+/-! ### several sites on one server
+
+`ServerType.Setup` (httptype.go) parses the directives of ALL site blocks first, in source order,
+with ONE group counter for the whole Caddyfile (the bodies of `handle` / `handle_errors` blocks
+draw their names then); afterwards, per server, the site blocks are sorted (longer hosts first,
+the block without a host last — the harness lists them in that order, equal-length hosts stay in
+source order) and each site's own `buildSubroute` draws its names.  `appendSubrouteToRouteList`
+puts every site — unless it is the only block and has no host — into ONE route: the site's host
+matcher, the site's routes in a subroute, and `terminal: true` ("site blocks do not cascade nor
+inherit").  The error routes of a site that has `handle_errors` blocks are wrapped the same way. -/
+
+structure Site where
+  host : Option Nat
+  nodes : List Node
+  ebs : List EBlock
+
+/-- what the parse phase leaves of one site: its directive routes (groups unset) and its error blocks -/
+structure ParsedSite where
+  host : Option Nat
+  nodes : List Node
+  rs : List Route
+  blocks : List (List Route)
+  hasErrorBlocks : Bool
+
+def parseSites : List Site → Nat → Option (List ParsedSite × Nat)
+  | [], c => some ([], c)
+  | s :: ss, c =>
+    match adaptNodes s.nodes c with
+    | (rs, c1) =>
+      match adaptEBlocks s.ebs c1 with
+      | none => none
+      | some (blocks, c2) =>
+        match parseSites ss c2 with
+        | none => none
+        | some (rest, c3) => some (⟨s.host, s.nodes, rs, blocks, !s.ebs.isEmpty⟩ :: rest, c3)
+
+def hostSets : Option Nat → List (List Matcher)
+  | some h => [[.atom .host [h]]]
+  | none => []
+
+/-- `appendSubrouteToRouteList` for a block that is wrapped -/
+def wrapSite (host : Option Nat) (routes : List Route) : List Route :=
+  if host.isNone && routes.isEmpty then []
+  else [.mk 0 (hostSets host) (if routes.isEmpty then [] else [.sub routes false []]) true]
+
+/-- the second phase: each site's own `buildSubroute`, in (sorted) order, then the wrapping -/
+def buildSites (single : Bool) : List ParsedSite → Nat → List Route × List Route
+  | [], _ => ([], [])
+  | p :: ps, c =>
+    match buildSites single ps (drawGroups (p.nodes.filter Node.isHandle).length c).2 with
+    | (prim, errs) =>
+      let routes := consolidate (setGroups (drawGroups (p.nodes.filter Node.isHandle).length c).1 p.nodes p.rs)
+      let eroutes := (C16.insertionSort blockLess p.blocks).flatten
+      if single && p.host.isNone then (routes ++ prim, eroutes ++ errs)
+      else (wrapSite p.host routes ++ prim, (if p.hasErrorBlocks then wrapSite p.host eroutes else []) ++ errs)
+
+/-- primary routes, `srv.Errors != nil`, error routes of the server -/
+def adaptSites (sites : List Site) : Option (List Route × Bool × List Route) :=
+  match parseSites sites 0 with
+  | none => none
+  | some (ps, c) =>
+    match buildSites (sites.length == 1) ps c with
+    | (prim, errs) => some (prim, sites.any (fun s => !s.ebs.isEmpty), errs)
+
 end CaddyModel.C05
